@@ -87,6 +87,10 @@ def unit_binary(unit):
 def build_unit(unit):
     out = unit_binary(unit)
     if os.path.exists(out):
+        try:
+            os.utime(out)  # mark as in use: the eviction below goes by age
+        except OSError:
+            pass
         return out, None
     os.makedirs(os.path.dirname(out), exist_ok=True)
     cxx, flags, incs, src, libs = unit_cmd(unit)
@@ -101,11 +105,13 @@ def build_unit(unit):
             pass
         return None, "build of %s failed (%s):\n%s" % (unit["name"], " ".join(cmd), p.stdout[-6000:])
     os.rename(tmp, out)
-    # keep at most 2 binaries per unit name
+    # keep at most 2 binaries per unit name - but never evict one used in the last 6 hours: a concurrent run against
+    # another checkout (VERIF_REPO) or another tier may still be executing it
     olds = sorted(glob.glob(os.path.join(BUILD, "bin", unit["name"] + "-????????????????")), key=os.path.getmtime)
     for o in olds[:-2]:
         try:
-            os.unlink(o)
+            if time.time() - os.path.getmtime(o) > 6 * 3600:
+                os.unlink(o)
         except OSError:
             pass
     return out, "built %s in %.1fs" % (unit["name"], time.time() - t0)
